@@ -57,6 +57,8 @@ JudgeFull(e) ==
     ELSE IF ~IsPermS(e.perm, n) THEN "returned permutation is not a permutation of 0..n-1"
     ELSE IF n = 0 THEN ""
     ELSE IF \E k \in 1..Len(e.gens) : ~IsPermS(e.gens[k], n) \/ ~IsAutF(G, FnOfSeq(e.gens[k]), e.classes) THEN "a returned generator is not a (class-preserving) automorphism"
+    ELSE IF \E k \in 1..Len(e.known) : ~IsPermS(e.known[k], n) \/ ~IsAutF(G, FnOfSeq(e.known[k]), e.classes) THEN "HARNESS: a 'known' automorphism is not one"
+    ELSE IF \E k \in 1..Len(e.known) : \E v \in Verts(n) : ~\E O \in orbs : v \in O /\ e.known[k][v + 1] \in O THEN "an automorphism known by construction moves a vertex out of its returned orbit (orbits too fine)"
     ELSE IF e.reused /\ (e.perm # e.fresh.perm \/ e.orbits # e.fresh.orbits \/ e.gens # e.fresh.gens) THEN "the call on reused storage differs from the fresh call"
     ELSE IF ~e.bf THEN (IF OrbitsF(n, gens) # orbs THEN "returned orbits are not the orbits of the returned generators" ELSE "")
     ELSE LET A == AutF(G, e.classes) IN
